@@ -54,6 +54,8 @@ class Ctx:
                 os.unlink(f)
         self.replay_rows = L.read_ndjson(replay) if replay else None
         self.thorough = tier == "thorough"
+        self.crash_ignore = None   # regex on the harness output of a crashed case that is not a finding
+        self.ignored_crashes = 0
         self.validated = []        # (module, events, cfg, env, heap, rejected ids) of every trace validation
 
     # ------------------------------------------------------------ steps
@@ -181,7 +183,12 @@ class Ctx:
                 why = "crash:" + (crash["crash"] if crash else ("rc=%d" % rc))
                 if rc == 124:
                     why = "hang"
-                self.flag(rows[done], why + " " + out[-1500:].replace("\n", " | ")[:400])
+                detail = out[-1500:].replace("\n", " | ")
+                if self.crash_ignore and re.search(self.crash_ignore, detail):
+                    # e.g. the sanitizer's fatal report for a refused giant allocation: same meaning as bad_alloc
+                    self.ignored_crashes += 1
+                else:
+                    self.flag(rows[done], why + " " + detail[:400])
                 offset = done + 1
                 part += 1
                 if offset >= len(rows):
